@@ -443,6 +443,60 @@ void *__wrap_memset(void *d, int c, size_t n) {
   return __real_memset(d, c, n);
 }
 
+// libc functions that keep hidden process-wide state (POSIX: "need not be
+// thread-safe", or one shared sequence). libc itself is not instrumented, so
+// the state is modelled: every call is a write access to a stand-in object in
+// this executable's static storage, i.e. a preemption point and an entry in
+// the race log (two tasks calling strtok without a happens-before edge are a
+// data race on the stand-in, which is what the real static is).
+char sim_libc_state_strtok;
+char sim_libc_state_rand;
+char sim_libc_state_strerror;
+char sim_libc_state_localtime;
+char sim_libc_state_setlocale;
+char *__real_strtok(char *, const char *);
+char *__wrap_strtok(char *s, const char *d) {
+  OnAccess(&sim_libc_state_strtok, 1, true, PC);
+  return __real_strtok(s, d);
+}
+int __real_rand(void);
+int __wrap_rand(void) {
+  OnAccess(&sim_libc_state_rand, 1, true, PC);
+  return __real_rand();
+}
+void __real_srand(unsigned);
+void __wrap_srand(unsigned v) {
+  OnAccess(&sim_libc_state_rand, 1, true, PC);
+  __real_srand(v);
+}
+long __real_random(void);
+long __wrap_random(void) {
+  OnAccess(&sim_libc_state_rand, 1, true, PC);
+  return __real_random();
+}
+char *__real_strerror(int);
+char *__wrap_strerror(int e) {
+  OnAccess(&sim_libc_state_strerror, 1, true, PC);
+  return __real_strerror(e);
+}
+struct tm;
+typedef long sim_time_t;
+struct tm *__real_localtime(const sim_time_t *);
+struct tm *__wrap_localtime(const sim_time_t *t) {
+  OnAccess(&sim_libc_state_localtime, 1, true, PC);
+  return __real_localtime(t);
+}
+struct tm *__real_gmtime(const sim_time_t *);
+struct tm *__wrap_gmtime(const sim_time_t *t) {
+  OnAccess(&sim_libc_state_localtime, 1, true, PC);
+  return __real_gmtime(t);
+}
+char *__real_setlocale(int, const char *);
+char *__wrap_setlocale(int c, const char *l) {
+  OnAccess(&sim_libc_state_setlocale, 1, l != nullptr, PC);
+  return __real_setlocale(c, l);
+}
+
 int __real___cxa_guard_acquire(void *);
 void __real___cxa_guard_release(void *);
 void __real___cxa_guard_abort(void *);
